@@ -97,6 +97,15 @@ theorem client_validate_iff {PK ID : Type} [DecidableEq ID] (H : PK → ID) (c :
     c.validate H = true ↔ c.id = H c.publicKey := by
   simp [Client.validate]
 
+/-- the id follows the key through any sequence of key changes on ONE client object: after setting the keys `pks` one
+after the other the id is the hash of the LAST key and the record validates. -/
+theorem client_id_follows_key {PK ID : Type} [DecidableEq ID] (H : PK → ID) (c : Client PK ID) (pks : List PK) (pk : PK) :
+    ((pks ++ [pk]).foldl (Client.setPublicKey H) c).id = H pk ∧
+    ((pks ++ [pk]).foldl (Client.setPublicKey H) c).publicKey = pk ∧
+    ((pks ++ [pk]).foldl (Client.setPublicKey H) c).validate H = true := by
+  rw [List.foldl_append]
+  simp [Client.setPublicKey, Client.ofPublicKey, clientId, Client.validate]
+
 theorem client_id_names_one_key {PK ID : Type} [DecidableEq ID] (H : PK → ID) (hinj : Function.Injective H)
     (c c' : Client PK ID) (h : c.validate H = true) (h' : c'.validate H = true) (hid : c.id = c'.id) :
     c.publicKey = c'.publicKey := by
